@@ -165,6 +165,27 @@ def _run_uperm(ctx, spec, rng):
         ok = len(got) == len(set(got)) and set(got) == want
         ctx.check("unique_perms:exact-once", ok, sig=(n, combo), nt=n > 1, mech="unique_perms:duplicates" if len(got) != len(set(got)) else "unique_perms:wrong-set",
                   detail={"elements": elems, "returned": len(got), "distinct": len(set(got)), "want": len(want)})
+        # history monitor: an abandoned enumeration, then two interleaved ones, over the same multiset
+        if n >= 2:
+            it = _call(ctx, unique_perms, list(elems))
+            try:
+                first = tuple(next(iter(it))) if it is not None else None
+            except StopIteration:
+                first = None
+            again = _call(ctx, unique_perms, list(elems))
+            outer = _call(ctx, unique_perms, list(elems))
+            if again is not None and outer is not None:
+                got2 = [tuple(x) for x in again]
+                nested_ok = True
+                seen_outer = []
+                for x in outer:
+                    seen_outer.append(tuple(x))
+                    if len(seen_outer) <= 2:
+                        inner = [tuple(y) for y in unique_perms(list(elems))]
+                        nested_ok &= len(inner) == len(set(inner)) and set(inner) == want
+                ok = first in want and len(got2) == len(set(got2)) and set(got2) == want and nested_ok and len(seen_outer) == len(set(seen_outer)) and set(seen_outer) == want
+                ctx.check("unique_perms:exact-once", ok, sig=(n, combo, "history"), nt=True, mech="unique_perms:enumeration-depends-on-earlier-or-concurrent-enumerations",
+                          detail={"elements": elems, "after-abandoned": len(got2), "outer": len(seen_outer), "nested_ok": nested_ok, "want": len(want)})
     ctx.sample("unique_perms:exact-once", {"n": n, "symbols": k})
 
 
